@@ -723,11 +723,13 @@ def run(ctx) -> dict:
             'reads the component its name says on the branch its own symbol selects; and every '
             'conversion of a microsecond count carries the factor 10^6.',
         'not_decided':
-            'The timeline identities (todelta/fromdelta round trip, d + dur - dur = d, elapsed '
-            'time, ordering as instants, timezone adjustment preserving the instant, day '
-            'clamping when adding yearMonthDurations) and the arithmetic applied to duration '
-            'fields (// 3600 % 24 …) are statements over calendar values; no sound structural '
-            'rule was found for them.',
+            'Four structural necessary conditions of the timeline clauses are decided (timedelta '
+            'parts summed, year shortcut guarded, derived slots reset by the tzinfo setter, the '
+            'real year carried when a value is rebuilt from a proxy). Not decided: the timeline '
+            'identities themselves (todelta/fromdelta round trip, d + dur - dur = d, elapsed time, '
+            'timezone adjustment preserving the instant, day clamping), BCE and beyond-9999 '
+            'calendar arithmetic, the arithmetic applied to duration fields: statements over '
+            'calendar values.',
         'assumptions': ['component table transcribed from F&O 3.1 §9.5 (function names)',
                         'property names of AbstractDateTime/Duration as read by the functions'],
     }
